@@ -285,6 +285,26 @@ fn short_formula_long_ordering(st: &mut Stats) {
     }
 }
 
+/// A fixed point (or quantifier) re-binds a name that an ENCLOSING binder already binds, and the
+/// enclosing scope goes on after it with another occurrence of the name.
+fn rebinding_then_later_occurrence(st: &mut Stats) {
+    let outers = ["exists x # (%)", "forall x, y # (%)", "gfp x # (b & %)", "lfp x # (% | b)", "exists y, x # (%)", "%"];
+    let inners = ["(lfp x # (x | a))", "(gfp x # (x & a))", "(mu x # a)", "(exists x # x & a)", "(forall x # x | a)", "(nu x # (exists x # x))"];
+    let tails = ["& x", "| x", "& [x, y] >= 1", "^ (if x then a else y)", "=> x", ""];
+    for o in outers {
+        for i in inners {
+            for t in tails {
+                let text = o.replace('%', &format!("{} {}", i, t));
+                if check_text(st, &text, None, "rebinding-then-later-occurrence") {
+                    st.bump("rebinding_then_later_occurrence");
+                }
+                let list = format!("[{}, y] = 1 {}", i, t);
+                check_text(st, &o.replace('%', &list), None, "rebinding-then-later-occurrence");
+            }
+        }
+    }
+}
+
 fn compare_lists(st: &mut Stats, text: &str, fv: &[String], vs: &[String], want_free: &[String], order: &[String], case: &dyn Fn() -> Value) {
     // sets must be exact; `vars` lists each name once; `free_vars` must be listed in the same
     // (variable) order as `vars`. Which order the tool gives to unlisted variables is not part of
@@ -404,6 +424,7 @@ pub fn run(ctx: &Ctx) -> (Stats, Spec) {
     positional(&mut st);
     long_binders(ctx, &mut st);
     short_formula_long_ordering(&mut st);
+    rebinding_then_later_occurrence(&mut st);
     // (own thread: deep recursion wants the workers' large stack)
     let deep = util::par_jobs(1, |_| {
         let mut s = Stats::new();
